@@ -20,23 +20,31 @@ MODELLED = ("DbaComputation (all handlers, weights, counter, postponed-message r
             "the stop-then-back-to-ok-mode quirk) is modelled as a Net.v proto; every hook call, the final state of "
             "every computation and every in-flight message is compared with the model replaying the same schedule, "
             "and the model's synchronous-round semantics is compared with the per-cycle values (now also a theorem: "
-            "dba_refines_rounds). See MANIFEST text for what is a theorem.")
+            "dba_refines_rounds). Theorems about the model: safety at EVERY finished() of every schedule "
+            "(dba_finish_safe_every / dba_finish_safe_all), liveness of the dba_end flood at quiescence (dba_end_flood), "
+            "shape of the finished() calls of one computation (dba_finished_count_partial). Only measured on the "
+            "real runs (histogram): at most two finished() calls per computation, flood complete at quiescence.")
 META = dict(
     level_text=("Proof (Coq). Proved for all problems (any number of variables, constraints of any arity, any "
                 "domains, weights, random draws) and for EVERY asynchronous per-channel-FIFO schedule of the network "
                 "model (any interleaving of start() calls and deliveries, pre-start buffering, IndexError and "
-                "empty-domain paths included): dba_finish_safe - if the problem is well formed, infinity > 0 and "
-                "every variable of a constraint is within max_distance hops of the computation that calls the "
-                "FIRST finished() of the run, then right after that step the assignment held by ALL computations "
-                "violates no constraint.  It rests on dba_refines_rounds (barrier invariant M_Dba2.Inv: before the "
-                "first finished() every started computation is in the state, and every message in a channel / "
-                "pre-start buffer / postponed list is the message, that the synchronous rounds prescribe; "
-                "neighbours at most one phase apart; postponed messages are exactly next-phase messages; a "
-                "delivered message is always the expected one), on the termination-counter radius lemma and the "
-                "frozen-assignment lemma of the synchronous semantics.  NOT a theorem: the LATER finished() calls "
-                "of the same run (dba_end flood, and the stopped computation that skips one ok? broadcast and "
-                "calls finished() a second time); for those the oracle of the correspondence run evaluates the "
-                "snapshot of all values at EVERY finished() call of the real computations."),
+                "empty-domain paths included): dba_finish_safe_every - if the problem is well formed, infinity > 0 "
+                "and any two variables that occur in constraints are within max_distance hops, then right after "
+                "ANY step in which ANY computation calls finished() (first or later call, by stop_condition or "
+                "because a dba_end arrived) the assignment held by ALL computations violates no constraint; "
+                "dba_finish_safe_all - from the first finished() on the assignment never changes again, whatever "
+                "the rest of the schedule does.  It rests on dba_refines_rounds (barrier invariant M_Dba2.Inv up to "
+                "the first finished(): every started computation is in the state, and every message in a channel / "
+                "pre-start buffer / postponed list is the message, that the synchronous rounds prescribe), on the "
+                "termination-counter radius lemma, and on the frozen-assignment invariant P_Dba3.Fz that is "
+                "established at the first finished() and preserved by every step (dba_frozen_step) although the "
+                "stopped computation skips one ok? broadcast and returns to 'ok' mode (quirk kept in the model).  "
+                "Also proved: dba_end_flood (in every quiescent configuration with a finished computation every "
+                "connected computation has finished and is in mode 'finished'), dba_finished_kinds / "
+                "dba_end_is_last / dba_finished_count_partial (the finished() calls of a computation are "
+                "stop_condition firings followed by at most one dba_end call, after which it is silent).  NOT a "
+                "theorem: stop_condition fires at most once per computation (so 'at most two finished() calls' "
+                "is measured by the histogram of the correspondence run, not proved)."),
     level_note=("Trusted: Coq kernel/vm_compute, M_Dba.v + Net.v as a rendering of dba.py and of "
                 "MessagePassingComputation.start/on_message, the thread-free netdriver, the harness. Domains are "
                 "non-empty in generated cases; integer costs."),
@@ -46,7 +54,10 @@ META = dict(
 OBLIGATIONS = ["dba_sync_finish_safe_partial", "dba_sync_safe_forever", "dba_counter_radius", "dba_sinit_is_initial",
                "dba_first_finish_by_counter", "dba_stop_needs_counter", "dba_end_after_finish", "dba_no_nested_replay",
                "dba_refines_rounds", "dba_phase_gap", "dba_delivery_expected", "dba_postponed_next_phase",
-               "dba_finish_safe", "dba_finish_safe_any_run"]
+               "dba_finish_safe", "dba_finish_safe_any_run",
+               "dba_frozen_step", "dba_first_finish_frozen", "dba_finish_safe_all", "dba_finish_safe_every",
+               "dba_flood_invariant", "dba_end_flood", "dba_finished_kinds", "dba_end_is_last",
+               "dba_finished_count_partial"]
 
 
 def _name(i):
@@ -430,7 +441,9 @@ def _wf_problem(c, o):
 def histogram(cases, obs):
     h = dict(in_scope=0, out_of_scope=0, runs_with_finish=0, finished_calls=0, double_finish=0, raises=0,
              cycles=0, max_cycle=0, moves=0, small_infinity=0, sched_steps=0, all_finished=0,
-             in_scope_theorem_hypotheses_hold=0)
+             in_scope_theorem_hypotheses_hold=0, later_finished_calls_in_scope=0,
+             max_finished_calls_per_computation=0, computations_with_3plus_finished_calls=0,
+             quiescent_runs_with_finish=0, quiescent_flood_complete=0)
     for c, o in zip(cases, obs):
         if "log" not in o:
             continue
@@ -442,6 +455,30 @@ def histogram(cases, obs):
         h["finished_calls"] += len(fins)
         h["double_finish"] += len(fins) - len(set(fins))
         h["all_finished"] += bool(fins) and len(set(fins)) == c["nvars"]
+        if in_scope_of_property(c):
+            h["later_finished_calls_in_scope"] += max(0, len(fins) - 1)
+        for n_ in set(fins):
+            k = fins.count(n_)
+            h["max_finished_calls_per_computation"] = max(h["max_finished_calls_per_computation"], k)
+            h["computations_with_3plus_finished_calls"] += k >= 3
+        # the dba_end flood at quiescence (hypotheses of dba_end_flood evaluated on the real run)
+        quiet = (all(not ql for _s, _d, ql in o["inflight"]) and all(s_["started"] for s_ in o["states"])
+                 and not any(e[0] == "raise" for e in o["log"]))
+        if quiet and fins:
+            h["quiescent_runs_with_finish"] += 1
+            adj = {}
+            for a_, b_ in _scope_edges(c["constraints"]):
+                adj.setdefault(a_, set()).add(b_)
+                adj.setdefault(b_, set()).add(a_)
+            reach, fr = set(), [_idx(n_) for n_ in set(fins)]
+            while fr:
+                x = fr.pop()
+                if x not in reach:
+                    reach.add(x)
+                    fr.extend(adj.get(x, ()))
+            st_ = {s_["id"]: s_ for s_ in o["states"]}
+            h["quiescent_flood_complete"] += all(
+                _name(x) in fins and (not adj.get(x) or st_[_name(x)]["mode"] == "finished") for x in reach)
         h["raises"] += sum(e[0] == "raise" for e in o["log"])
         h["sched_steps"] += len(o["sched"])
         for e in o["log"]:
